@@ -110,24 +110,26 @@ Section DECODE.
      at the declared types, without error *)
   Theorem deep_decode_roundtrip : forall name s ms p,
     no_byte "["%char name = true -> names_ok s = true ->
-    wfv (VObj ms) -> keys_ok (VObj ms) -> texts_ok (ser [] (VObj ms)) = true ->
+    wfv (VObj ms) -> nek (VObj ms) -> keys_ok (VObj ms) -> texts_ok (ser [] (VObj ms)) = true ->
     reading parse_int64 parse_int32 parse_float s (VObj ms) = Some p ->
     exists found, deep_decode parse_int64 parse_int32 parse_float atoi name s (query_of name (ser [] (VObj ms))) = DRes p found None.
   Proof.
-    intros name s ms p Hname Hn Hw Hk Ht Hr.
+    intros name s ms p Hname Hn Hw Hne Hk Ht Hr.
     assert (Hpaths : Forall (fun pt : list string * string => fst pt <> [] /\ Forall (fun k => no_byte "]"%char k = true) (fst pt)) (ser [] (VObj ms))).
     { pose proof (ser_paths_deeper (VObj ms) name I) as H1. pose proof (ser_paths_ok (VObj ms) [] Hk (Forall_nil _)) as H2.
       rewrite Forall_forall in *. intros pt Hin. split.
       - destruct (H1 pt Hin) as [_ (k2 & rest & E)]. rewrite E. discriminate.
       - apply (H2 pt Hin). }
     unfold deep_decode. rewrite (deep_props_query_of name _ Hname Hpaths).
-    destruct (make_object_roundtrip parse_int64 parse_int32 parse_float atoi atoi_itoa s ms p Hn Hw Ht Hr) as (tree & Hm & Hb).
+    destruct (make_object_roundtrip parse_int64 parse_int32 parse_float atoi atoi_itoa s ms p Hn Hw Hne Ht Hr) as (tree & Hm & Hb).
     destruct (ser [] (VObj ms)) as [|pt rest] eqn:Es; [exfalso; apply (ser_nonempty (VObj ms) [] Hw Es)|].
     rewrite Hm, Hb.
     (* the reading of an object is an object *)
     assert (Hp : exists m, p = PO m).
     { destruct s as [c|it|decl [a|]]; cbn [reading] in Hr; try discriminate.
-      destruct (obj_loop _ decl []) as [m|]; cbn in Hr; [|discriminate]. inversion Hr. eauto. }
+      - destruct (obj_loop _ decl []) as [m|]; [|discriminate].
+        destruct (obj_loop _ ms m) as [m'|]; cbn in Hr; [|discriminate]. inversion Hr. eauto.
+      - destruct (obj_loop _ decl []) as [m|]; cbn in Hr; [|discriminate]. inversion Hr. eauto. }
     destruct Hp as [m ->]. eexists. reflexivity.
   Qed.
 End DECODE.
